@@ -121,7 +121,7 @@ def build(stream, p):
 
     def run():
         arr = gen.acc_array(rows, reuse=p.get("reuse", False))
-        return dsw.decode(dna_sequence=gen.typed_str(s), bit_length=L, accessor=arr, start_index=v0, is_faster=faster, vt_check=gen.typed_str(vt),
+        return gen.api("decode", dna_sequence=gen.typed_str(s), bit_length=L, accessor=arr, start_index=v0, is_faster=faster, vt_check=gen.typed_str(vt),
                           shuffles=tab)
     impl = lambda: guard(run, lambda r: [[int(x) for x in r]])
     has3 = any(sum(1 for x in r if x >= 0) == 3 for r in rows)
